@@ -64,12 +64,14 @@ theorem compile_signature :
 /-- No other top-level function of `__init__.py` goes through `compile`; the exported `SoupSieve` is css_match's. -/
 theorem no_other_callers : otherCompileCallers = [] ∧ soupSieveAlias = "cm.SoupSieve" := by decide
 
-/-- Which `CSSMatch` method each `SoupSieve` method ends in (following `self.` delegations inside `SoupSieve`). -/
-def ctorCalls (d : Delegation) : List (String × String × List String) :=
-  (d.calls.filter (·.kind = .ctor)).map fun c => (c.target, c.method, c.args)
+/-- `CSSMatch(self.selectors, target, self.namespaces, self.flags).m(args)` -/
+def viaMatcher (target m : String) (args : List String) : Call :=
+  { kind := .ctor, target := "CSSMatch", ctorArgs := ["self.selectors", target, "self.namespaces", "self.flags"],
+    method := m, args := args, kwargs := [] }
 
-def selfCalls (d : Delegation) : List (String × List String × List (String × String)) :=
-  (d.calls.filter (·.kind = .self)).map fun c => (c.method, c.args, c.kwargs)
+/-- `self.m(args, kwargs)` -/
+def viaSelf (m : String) (args : List String) (kwargs : List (String × String)) : Call :=
+  { kind := .self, target := "self", ctorArgs := [], method := m, args := args, kwargs := kwargs }
 
 theorem delegation_names :
     delegations.map (·.name) = ["match", "closest", "filter", "select_one", "select", "iselect"] := by decide
@@ -78,13 +80,15 @@ theorem delegation_names :
 `self.match(node)`, `select_one → self.select(tag, limit=1)`, `select → self.iselect(tag, limit)`,
 `iselect → CSSMatch.select(limit)`. Every `CSSMatch` is built from (selectors, the call target, namespaces, flags). -/
 theorem delegation_targets :
-    delegations.map (fun d => (d.name, ctorCalls d, selfCalls d)) =
-      [ ("match", [("CSSMatch", "match", ["tag"])], []),
-        ("closest", [("CSSMatch", "closest", [])], []),
-        ("filter", [("CSSMatch", "filter", [])], [("match", ["node"], [])]),
-        ("select_one", [], [("select", ["tag"], [("limit", "1")])]),
-        ("select", [], [("iselect", ["tag", "limit"], [])]),
-        ("iselect", [("CSSMatch", "select", ["limit"])], []) ] := by decide
+    delegations =
+      [ { name := "match", params := ["tag"], calls := [viaMatcher "tag" "match" ["tag"]] },
+        { name := "closest", params := ["tag"], calls := [viaMatcher "tag" "closest" []] },
+        { name := "filter", params := ["iterable"],
+          calls := [viaMatcher "iterable" "filter" [], viaSelf "match" ["node"] []] },
+        { name := "select_one", params := ["tag"], calls := [viaSelf "select" ["tag"] [("limit", "1")]] },
+        { name := "select", params := ["tag", "limit"], calls := [viaSelf "iselect" ["tag", "limit"] []] },
+        { name := "iselect", params := ["tag", "limit"], calls := [viaMatcher "tag" "select" ["limit"]] } ] := by
+  decide
 
 theorem delegation_ctor_args : ∀ d ∈ delegations, ∀ c ∈ d.calls, c.kind = .ctor →
     c.ctorArgs = ["self.selectors", (d.params.headD "?"), "self.namespaces", "self.flags"] := by decide
@@ -92,13 +96,16 @@ theorem delegation_ctor_args : ∀ d ∈ delegations, ∀ c ∈ d.calls, c.kind 
 /-- The method parameters agree with what the wrappers pass (`expected`). -/
 theorem delegation_params : ∀ d ∈ delegations, d.params = expected d.name := by decide
 
+/-- The pinned (defective) `select`: `custom=custom` is not handed to `compile`. -/
+def droppedCustom : Wrapper :=
+  { name := "select", params := ["select", "tag", "namespaces", "limit", "flags"],
+    kwonly := ["custom"], vararg := "", varkw := "kwargs", shape := .ret, callee := "compile",
+    calleeIsModuleFn := true, compileArgs := ["select", "namespaces", "flags"], compileKwargs := [],
+    passesKwargs := true, method := "select", methodArgs := ["tag", "limit"], methodKwargs := [], note := "" }
+
 /-- Expressibility of the historical defect: a wrapper that drops `custom=custom` fails the forwarding predicate. -/
-example :
-    let w : Wrapper := { name := "select", params := ["select", "tag", "namespaces", "limit", "flags"],
-      kwonly := ["custom"], vararg := "", varkw := "kwargs", shape := .ret, callee := "compile",
-      calleeIsModuleFn := true, compileArgs := ["select", "namespaces", "flags"], compileKwargs := [],
-      passesKwargs := true, method := "select", methodArgs := ["tag", "limit"], methodKwargs := [], note := "" }
-    ¬ (w.compileArgs = ["select", "namespaces", "flags"] ∧ w.compileKwargs = [("custom", "custom")] ∧
-       w.passesKwargs = true ∧ w.method = w.name ∧ w.methodArgs = expected w.name) := by decide
+example : ¬ ∀ w ∈ [droppedCustom],
+    w.compileArgs = ["select", "namespaces", "flags"] ∧ w.compileKwargs = [("custom", "custom")] ∧
+    w.passesKwargs = true ∧ w.method = w.name ∧ w.methodArgs = expected w.name := by decide
 
 end SoupVerif.C03Wrappers
